@@ -108,13 +108,6 @@ func (cb *CircuitBreaker) Execute(fn func() error) error {
 		return err
 	}
 
-	// Increment request count for half-open state
-	cb.mutex.Lock()
-	if cb.state == StateHalfOpen {
-		cb.requestCount++
-	}
-	cb.mutex.Unlock()
-
 	defer func() {
 		if r := recover(); r != nil {
 			cb.afterRequest(false)
@@ -158,38 +151,33 @@ func (cb *CircuitBreaker) beforeRequest() error {
 		return nil
 	}
 
-	// For Open state, check if we can transition to HalfOpen
-	if state == StateOpen {
-		canRetry := cb.nextAttempt.Before(now)
-		cb.mutex.RUnlock()
+	cb.mutex.RUnlock()
 
-		if canRetry {
-			cb.mutex.Lock()
-			// Double-check state hasn't changed
-			if cb.state == StateOpen && cb.nextAttempt.Before(now) {
-				cb.setState(StateHalfOpen)
-				cb.requestCount = 0
-				cb.successCount = 0
-			}
-			cb.mutex.Unlock()
-			return nil
+	// Open or half-open: decide admission and count the trial request in a
+	// single critical section, so that concurrent callers can never be
+	// admitted beyond maxRequests.
+	cb.mutex.Lock()
+	defer cb.mutex.Unlock()
+
+	switch cb.state {
+	case StateClosed:
+		// Closed by a concurrent request in the meantime
+		return nil
+	case StateOpen:
+		if !cb.nextAttempt.Before(now) {
+			return ErrCircuitBreakerOpen
 		}
-		return ErrCircuitBreakerOpen
+		cb.setState(StateHalfOpen)
+		cb.requestCount = 0
+		cb.successCount = 0
 	}
 
 	// HalfOpen state: check request limit
-	if state == StateHalfOpen {
-		atLimit := cb.requestCount >= cb.maxRequests
-		cb.mutex.RUnlock()
-
-		if atLimit {
-			return ErrTooManyRequests
-		}
-		return nil
+	if cb.requestCount >= cb.maxRequests {
+		return ErrTooManyRequests
 	}
-
-	cb.mutex.RUnlock()
-	return ErrCircuitBreakerOpen
+	cb.requestCount++
+	return nil
 }
 
 // afterRequest updates the circuit breaker state after a request
